@@ -1,9 +1,175 @@
 import NibabelModel.Model.C10
+import NibabelModel.Generated.C10Layouts
+import NibabelModel.Generated.C10Codes
 import Driver.Util
-/-! Line-protocol driver for C10: `C10 <op> <args...>` -> one observable line. -/
+/-! Line-protocol driver for C10: `C10 <op> <args...>` -> one observable line.
+
+    hdr   <cls> <native> <e|?> <hex>     WrapStruct from bytes (explicit or guessed byte order)
+    chk   <cls> <e> <hex>                check_fix, check_fix again, check_only
+    dt    <table> <code>                 data type code table row + reverse lookup
+    codec <e> <w> <v>                    byte codec
+    fdec  <f32|f64|i64> <pattern>        float classes used by the checks
+    fhpix <f32|f64> <ndim> <p0,..,p7>    pixdim of from_header(src) for another class of the same float width
+-/
 namespace Nb.Drv.C10
+open Nb Nb.C10
+
+def hexVal (c : Char) : Option Nat :=
+  if '0' ≤ c ∧ c ≤ '9' then some (c.toNat - '0'.toNat)
+  else if 'a' ≤ c ∧ c ≤ 'f' then some (c.toNat - 'a'.toNat + 10)
+  else none
+
+def parseHexChars : List Char → Option (List Byte)
+  | [] => some []
+  | a :: b :: r =>
+      match hexVal a, hexVal b, parseHexChars r with
+      | some x, some y, some t => some (UInt8.ofNat (16 * x + y) :: t)
+      | _, _, _ => none
+  | _ => none
+
+def parseHex? (s : String) : Option (List Byte) :=
+  if s = "-" then some [] else parseHexChars s.toList
+
+def hexChar (n : Nat) : Char := if n < 10 then Char.ofNat (48 + n) else Char.ofNat (87 + n)
+
+def toHex (bs : List Byte) : String :=
+  if bs.isEmpty then "-" else
+  String.ofList (bs.foldr (fun b acc => hexChar (b.toNat / 16) :: hexChar (b.toNat % 16) :: acc) [])
+
+def parseEndian? (s : String) : Option Endian :=
+  if s = "<" then some .le else if s = ">" then some .be else none
+
+def showEndian : Endian → String
+  | .le => "<"
+  | .be => ">"
+
+def showField (f : Field) (v : List Nat) : String :=
+  match f.kind with
+  | .int => ",".intercalate (v.map (fun x => toString (toInt f.iw x)))
+  | .bytes => toHex (v.map UInt8.ofNat)
+  | _ => ",".intercalate (v.map toString)
+
+def showVals (L : Layout) (vals : List (List Nat)) : String :=
+  ";".intercalate (List.zipWith showField L.fields vals)
+
+def showMsg : Msg → String
+  | .none => "-" | .sizeof => "sizeof" | .dtUnrec => "dt-unrec" | .dtUnsup => "dt-unsup"
+  | .bpNoDt => "bp-nodt" | .bpMismatch => "bp-mismatch" | .pdZero => "pd-zero" | .pdNeg => "pd-neg"
+  | .pdZeroNeg => "pd-zero+neg" | .qfac => "qfac" | .magic => "magic" | .offLow => "off-low"
+  | .off16 => "off-16" | .qform => "qform" | .sform => "sform" | .eolZero => "eol-zero"
+  | .eolBad => "eol-bad" | .origin => "origin" | .version => "version"
+
+def showReports (fix : Bool) (rs : List Report) : String :=
+  "[" ++ ",".intercalate (rs.map (fun r =>
+    toString r.level ++ ":" ++ showMsg r.msg ++ ":" ++ (if fix && r.fixMsg then "1" else "0"))) ++ "]"
+
+def b01 (b : Bool) : String := if b then "1" else "0"
+
+def isMgh (c : ClsSpec) : Bool := c.guess == .bigEndian
+
+/-- bytes as the constructor sees them (MGH pads / truncates; others need the exact size) -/
+def ctorBytes (c : ClsSpec) (L : Layout) (bs : List Byte) : Option (List Byte) :=
+  if isMgh c then
+    (match Gen.layoutOf? "mghHeader" with
+     | some H => if bs.length ≥ H.size then some (mghPad L.size bs) else (if bs.length = L.size then some bs else none)
+     | none => none)
+  else if bs.length = L.size then some bs else none
+
+def ctorVals (c : ClsSpec) (L : Layout) (e : Endian) (bs : List Byte) : List (List Nat) :=
+  let v := parse L e bs
+  if isMgh c then mghNormalise L v else v
+
+def handleHdr (c : ClsSpec) (L : Layout) (native : Endian) (e? : Option Endian) (bs0 : List Byte) : String :=
+  match ctorBytes c L bs0 with
+  | none => "ERR:WrapStructError"
+  | some bs =>
+    let e? := match e? with
+      | some e => some e
+      | none => guessEndian L c.guess native bs
+    match e? with
+    | none => "bad-op"
+    | some e =>
+      let h : Hdr := ⟨e, ctorVals c L e bs⟩
+      let bb := binaryblock L h
+      let cp := copy L h
+      let base := "e=" ++ showEndian h.e ++ " bb=" ++ toHex bb ++ " vals=" ++ showVals L h.vals ++
+        " copy=" ++ b01 (hdrEq L h cp && binaryblock L cp == bb)
+      if c.swappable then
+        let s := asByteswapped L h
+        base ++ " sw=" ++ showEndian s.e ++ ":" ++ toHex (binaryblock L s) ++
+          " swvals=" ++ b01 (s.vals == h.vals) ++ " eq=" ++ b01 (hdrEq L h s) ++ b01 (hdrEq L s h) ++
+          " back=" ++ b01 (binaryblock L (asByteswapped L s) == bb)
+      else base ++ " sw=NA"
+
+def handleChk (c : ClsSpec) (L : Layout) (e : Endian) (bs0 : List Byte) : String :=
+  match ctorBytes c L bs0 with
+  | none => "ERR:WrapStructError"
+  | some bs =>
+    let bs := serialize L e (ctorVals c L e bs)
+    if raisesBytes c L e bs then "ERR:OverflowError" else
+    let ro := checkOnlyBytes c L e bs
+    let (bb1, r1) := checkFixBytes c L e bs
+    let (bb2, r2) := checkFixBytes c L e bb1
+    "r1=" ++ showReports true r1 ++ " bb1=" ++ toHex bb1 ++ " r2=" ++ showReports true r2 ++
+      " same=" ++ b01 (bb2 == bb1) ++ " ro=" ++ showReports false ro
 
 def handle : List String → String
+  | ["hdr", cls, native, e, hex] =>
+      match Gen.classOf? cls, parseEndian? native, parseHex? hex with
+      | some c, some native, some bs =>
+          match Gen.layoutOf? c.layout with
+          | none => "bad-op"
+          | some L =>
+            if e = "?" then handleHdr c L native none bs
+            else match parseEndian? e with
+              | some e => handleHdr c L native (some e) bs
+              | none => "bad-op"
+      | _, _, _ => "bad-op"
+  | ["chk", cls, e, hex] =>
+      match Gen.classOf? cls, parseEndian? e, parseHex? hex with
+      | some c, some e, some bs =>
+          match Gen.layoutOf? c.layout with
+          | none => "bad-op"
+          | some L => handleChk c L e bs
+      | _, _, _ => "bad-op"
+  | ["dt", table, code] =>
+      match Gen.dtTables.find? (·.1 == table), code.toInt? with
+      | some (_, t), some code =>
+          match dtFind t code with
+          | none => "none"
+          | some r => toString r.kind ++ " " ++ toString r.isz ++ " " ++ toString r.swKind ++ " " ++
+              toString r.swIsz ++ " " ++ b01 r.swOpposite ++ " " ++
+              (if r.isz = 0 then "void" else match dtCodeOf t r.kind r.isz with
+                | some k => toString k
+                | none => "none")
+      | _, _ => "bad-op"
+  | ["codec", e, w, v] =>
+      match parseEndian? e, w.toNat?, v.toNat? with
+      | some e, some w, some v =>
+          let bs := enc e w v
+          toHex bs ++ " " ++ toString (dec e bs) ++ " " ++ toString (dec e.swap bs) ++ " " ++
+            toString (toInt w (dec e bs)) ++ " " ++ toString (ofInt w (toInt w (dec e bs)))
+      | _, _, _ => "bad-op"
+  | ["fhpix", fmt, nd, pix] =>
+      match nd.toNat?, parseNatList? pix with
+      | some nd, some pix =>
+          if pix.length ≠ 8 ∨ nd > 7 then "bad-op"
+          else if fmt = "f32" then showList (fromHeaderPix fmt32 nd pix)
+          else if fmt = "f64" then showList (fromHeaderPix fmt64 nd pix)
+          else "bad-op"
+      | _, _ => "bad-op"
+  | ["fdec", fmt, p] =>
+      match p.toNat? with
+      | none => "bad-op"
+      | some p =>
+        let flags (F : FloatFmt) := b01 (F.isNaN p) ++ b01 (F.isZero p) ++ b01 (F.isNeg p) ++ b01 (F.le0 p) ++
+          " " ++ toString (F.abs p) ++ " " ++ b01 (p == F.one) ++ b01 (p == F.negOne)
+        let off (v : OffVal) := b01 v.isZero ++ b01 (v.ltInt 352) ++ b01 (v.ltInt 544) ++ b01 v.mod16Zero ++
+          b01 (v == .ninf)
+        if fmt = "f32" then flags fmt32 ++ " " ++ off (fmt32.decode p)
+        else if fmt = "f64" then flags fmt64 ++ " " ++ off (fmt64.decode p)
+        else if fmt = "i64" then off (VoxKind.i64.decode p)
+        else "bad-op"
   | _ => "bad-op"
 
 end Nb.Drv.C10
